@@ -13,7 +13,8 @@ INVARIANT LawNormalValid
 INVARIANT LawNormalAllowed
 INVARIANT LawNormalKeepsPoints
 INVARIANT LawStrictOnlyMulti
-INVARIANT LawLooseOnlyPoly
+INVARIANT LawLooseIsDoc
+INVARIANT LawRinglessInvalid
 INVARIANT NeverStuck
 PROPERTY RankDecreases
 PROPERTY Terminates
